@@ -6,4 +6,16 @@ CHECKS = {
          "text": "Enumeration of the whole finite domain: all 18278 column names against a bijective base-26 reference with injectivity, order and length classes, four inverse functions incl. the tokenizer's; all rows 0..1000000 x 4 '$' forms x 6 columns in the thorough tier (strided + boundary rows in quick); range collapse over corner grid; negatives. exhaustive=true in thorough.",
          "note": "trusts ref/a1.py (divmod definition of bijective base-26) and CPython; four-letter columns out of scope",
          "technique": "runtime monitoring: exhaustive enumeration through the real functions with an inline inverse contract (icontract) and a reference implementation"},
+ "C18": {"level": "exploration",
+         "text": "Every string of length <= 4 (quick) / <= 5 (thorough) over a 36-symbol alphabet of letters, digits, operators, both quote characters and separators is tokenized by the real Tokenizer under four monitors (only TokenizerError may escape; token texts concatenate to the input; no token boundary inside a quoted run by an independent scanner; reader output accepted), plus random fragment strings and every formula read from the fixtures. Held on what was run; the property's domain (all strings) is unbounded.",
+         "note": "quote-span scanner of DESIGN A.7 defines 'quoted run'; token types are not judged",
+         "technique": "runtime monitoring: bounded-exhaustive + random input enumeration through the real tokenizer with an inline lossless/totality contract and an independent quote scanner"},
+ "C04": {"level": "exploration",
+         "text": "All 8 encodable kinds x all 4096 subsets of the 12 optional ids (sentinel per field) are encoded by the real Cell._to_buffer and decoded by an independent reference codec and by the library; records from the reference encoder over subsets of the 16 non-payload flag bits x 9 kinds (all 65536 subsets in thorough) are decoded by the real Cell._from_storage; every stored record of every fixture passes through the inline decode contract. exhaustive over the flag lattice in the thorough tier, sampled over payload values.",
+         "note": "trusts ref/cellrec.py as the published v5 layout (validated: consumes all ~75k fixture records to the last byte); uninterpreted fields only have to be skipped in place",
+         "technique": "runtime monitoring: inline icontract post-conditions on the real encoder/decoder + differential execution against an independent record codec over the exhaustive flag lattice"},
+ "C05": {"level": "exploration",
+         "text": "Every .iwa member of every fixture and the template (about 5300), the members of API-generated documents and synthetic archives at the 64 KiB boundaries (compressible and incompressible, multi-message, unknown fields) are decoded and re-encoded by the real IWAFile and compared segment by segment (header bytes, message bytes, plaintext identity) with an independent container codec; each stream is re-cut at systematic and random boundaries with stored/compressed chunks and must decode to the same archives; every output is checked against the container rules.",
+         "note": "trusts cramjam, protobuf and my reading of the container format in ref/iwa.py (validated on all fixture archives); compressed bytes are not compared",
+         "technique": "runtime monitoring: differential execution of the real codec against an independent container codec, metamorphic re-chunking, inline container-rule contract on every to_buffer"},
 }
